@@ -82,6 +82,16 @@ r/st          { return 4; }
 .|\n          { }
 %%
 ''',
+ 'posix': r'''
+%option posix-compat
+%%
+ab{3}/c       { return 1; }
+[0-9]+/xy{2}  { return 2; }
+q/7           { return 3; }
+k{2}/m        { return 4; }
+.|\n          { }
+%%
+''',
  'vari': r'''
 %%
 p+/r+         { return 1; }
@@ -209,6 +219,7 @@ def trail_rule(ctx, rep, rule='C06.R5'):
                 if d is not None and d.op == 'load' and res.loc(d.ops[0])[0] == 'local': bp = res.loc(d.ops[0])[1]
         if bp is None: rep.broken('%s: cannot identify the token-start local in %s' % (rule, v.name))
         sp = lex.parse_spec(v.spec())
+        posix = 'posix-compat' in sp.options
         k = 0; prev_contd = False
         probe = v.name.split('_')[1]
         for r in sp.rules:
@@ -218,6 +229,12 @@ def trail_rule(ctx, rep, rule='C06.R5'):
             trail = a['trail'] if a['trail'] is not None else (('set', frozenset([10])) if a['eol'] else None)
             H = fixed_len(a['head']) if trail is not None else None
             T = fixed_len(trail) if trail is not None else None
+            if posix and trail is not None:
+                # %option posix-compat: r{n} repeats the whole series before it ("ab{3}" is ababab) and flex treats the
+                # length of such a series as unknown; the E3 model parses the flex way, so its length is not used here
+                hp, _, tp = r.pat.partition('/')
+                if re.search(r'\{\d', hp): H = None
+                if re.search(r'\{\d', tp): T = None
             tgt = [lab for cv, lab in sw.cases if cv == k]
             if tgt:
                 got = adjust_of(fn, fn.bmap[tgt[0]], res)
